@@ -2651,4 +2651,50 @@ theorem C04_any_append_returns_live_witness :
     (anyAppendWitness.anyAppend 0 2).1.isLive 1 = true ∧ (anyAppendWitness.anyAppend 0 2).1.isLive 2 = false ∧
     (anyAppendWitness.anyAppend 0 2).1.inv = true := by decide +kernel
 
+/-! ## The bridge for histories with the convenience calls
+
+  `C04_reach_creation` gives the invariant for histories mixing the calls of `Op` and the convenience calls
+  (`Forest.COp`: `append_text`, `append_element`, `new_document_with_element`, `set_attribute`, …); the
+  corollaries below write down what it means for the trees reached: the structure at every node and the
+  structural hypotheses of the tree-level theorems, as `C04_reachable_structure` / `C04_reachable_hypotheses`
+  do for `Forest.XCall` histories. -/
+
+/-- the forest reached by a history mixing the calls of `Op` and the convenience calls -/
+def creationRun (ops : List (Op ⊕ Forest.COp)) : Forest :=
+  ops.foldl (fun f o => match o with | .inl o => f.step o | .inr c => (c.run f).1) Forest.init
+
+/-- ⟦C04_reachable_creation_structure⟧ Every tree reached by a history of `Op` calls and convenience calls is
+    structurally valid at every node, `StructValid` when its root is a document node, and free of adjacent
+    text nodes while consolidation has never been switched off. -/
+theorem C04_reachable_creation_structure (ops : List (Op ⊕ Forest.COp)) :
+    ∀ r ∈ (creationRun ops).roots,
+      (∀ (p : Path) (v : Value) (ks : List Tree), r.erase.at? p = some (.node v ks) →
+        OrderedKids ks ∧
+        (v.isLeafKind = true → ks = []) ∧
+        (v.isElement = false → ∀ k ∈ ks, k.value.isNormal = true) ∧
+        (∀ k ∈ ks, k.value.isDocument = false) ∧
+        (attrNames ks).Nodup ∧ (nsPrefixes ks).Nodup ∧
+        ((creationRun ops).everOff = false → noAdjText ks = true)) ∧
+      (r.value.isDocument = true → StructValid r.erase) ∧
+      ((creationRun ops).everOff = false → NoAdjacentText r.erase) := by
+  intro r hr
+  have hi : (creationRun ops).Inv := C04_reach_creation ops
+  exact ⟨C04_inv_structure _ hi r hr, (C04_inv_structValid _ hi r hr).2.2.2.1, (C04_inv_structValid _ hi r hr).2.2.2.2⟩
+
+/-- ⟦C04_reachable_creation_hypotheses⟧ … and satisfies the structural hypotheses of the tree-level property
+    theorems (`wf`, `kidsSorted`: C07; `UniqueBelow`: C10; `UniqueDeclsBelow`, `OnlyElementsDeclare`: C09, C15). -/
+theorem C04_reachable_creation_hypotheses (ops : List (Op ⊕ Forest.COp)) :
+    ∀ r ∈ (creationRun ops).roots,
+      Axes.wf r.erase = true ∧
+      (∀ p : Path, Axes.kidsSorted (Axes.subAt r.erase p).kids) ∧
+      UniqueBelow r.erase ∧
+      (∀ (path : Path) (sub : Tree), r.erase.at? path = some sub → UniqueDeclsBelow sub) ∧
+      OnlyElementsDeclare r.erase :=
+  C04_inv_hypotheses _ (C04_reach_creation ops)
+
+/-- Non-vacuity: `new_element; append_text "a"; append_element; append_text "b"` (all convenience calls but the
+    first) reaches one tree `<e>a<e/>b</e>`; its element node has three ordered children. -/
+example : (creationRun [.inl (.newElement 2), .inr (.appendNew 0 (.text ['a'])), .inr (.appendNew 0 (.element 2)),
+    .inr (.appendNew 0 (.text ['b']))]).roots.map (fun r => r.erase.kids.length) = [3] := by decide +kernel
+
 end XotModel.Props
